@@ -11,11 +11,14 @@ quick    : all 2^20 position fields x 8 velocity backgrounds and all 2^12 veloci
 thorough : quick + ALL 2^32 words through each column (row r = words w, w+1, w+2), float32 and float64.
 Oracle   : vf/c04_ref.py (tables/vectorised formulas from the documented layout), cross-checked in selfcheck()
            against the scalar references of vf/refs.py.  Velocity, density, indices, tagged, pid are exact;
-           positions are allowed eps*|x| (alternative association of idx*Box/1e6), lagr_pos 2*eps*max(|idx*Box/ppd|, Box/2).
+           positions are allowed 4*eps*|x| (any association of idx*Box/1e6), lagr_pos 2*eps*max(|idx*Box/ppd|, Box/2).
+Private kernels are reached by name with keyword arguments; when a name/signature is gone the sub-case is skipped
+(counted as subcases_skipped_driver_stale, announced by a NOTE), the public entry points keep deciding.
 """
 import itertools
 import numpy as np
 
+from vf import core
 from vf import c04_ref as R
 
 PID = 'C04'
@@ -30,10 +33,12 @@ RULE = ('RVint quick: 3 columns x (2^20 position fields x 8 velocity backgrounds
         'each containing a whole field sweep; word totals are in the extra counters')
 ASSUMPTIONS = [
     'encoding rounds to the nearest quantum (needed only for the encode->decode half-quantum round trip)',
-    'position tolerance eps(dtype)*|x| ; lagr_pos tolerance 2*eps(dtype)*max(|idx*Box/ppd|, Box/2); everything else exact',
+    'position tolerance 4*eps(dtype)*|x| (a few ulp: any association of count*Box/1e6) ; lagr_pos tolerance 2*eps(dtype)*max(|idx*Box/ppd|, Box/2); everything else exact',
     'thorough full sweep uses BoxSize 2000 (the position depends on the word only through the 20-bit field, '
     'which is swept for the 4 BoxSizes in the quick part)',
-    'return value for posout/velout=False only required to be an int in [0, N] (docstring is silent); N for a supplied array',
+    'return value for posout/velout=False may be None or an int in [0, N] (docstring is silent); N for a supplied array',
+    'a supplied output whose dtype differs from float_dtype is an unspecified combination: either decoded correctly in the array\'s dtype or refused (ValueError/TypeError)',
+    'tagged may have any bool/integer dtype holding 0/1; the PID_FIELDS constant is not part of the property',
 ]
 CHUNK = 1
 WORKERS = 12
@@ -46,6 +51,7 @@ NFULL = 256            # chunks of 2^24 rows
 FULL_BOX = 2000.0
 SUB = 1 << 18          # rows per block inside a chunk (arrays stay below glibc's 32 MB mmap threshold -> no page-fault storm)
 PID_OUT = ('pid', 'lagr_pos', 'tagged', 'density', 'lagr_idx')
+POS_ULPS = 4           # eps units allowed on positions
 
 
 def BOUNDS(tier):
@@ -113,6 +119,32 @@ class Ctx:
         self.nt = []
         self.extra = {}
         self.sample = None
+        self.stale = None
+        self.private_ok = 0
+
+    def skip(self, reason):
+        """a sub-case whose driver no longer fits the code (private name / signature gone): counted, never a violation"""
+        self.add('subcases_skipped_driver_stale', 1)
+        if self.stale is None:
+            self.stale = reason[:300]
+
+    def private(self, owner, name, **kw):
+        """call the private helper owner.name with keyword arguments; False (and a counted skip) when it cannot be reached"""
+        fn = getattr(owner, name, None)
+        if fn is None:
+            self.skip(f'private helper {name} no longer exists')
+            return False
+        try:
+            fn(**kw)
+        except Exception as e:
+            st = core.stale_reason(e)
+            if st is None:
+                raise
+            self.skip(f'{name}: {st}')
+            return False
+        self.calls += 1
+        self.private_ok += 1
+        return True
 
     def bad(self, sig, msg):
         if not any(p['sig'] == sig for p in self.probs):
@@ -123,7 +155,10 @@ class Ctx:
 
     def result(self):
         self.add('entry_point_calls', self.calls)
-        return dict(problems=self.probs, evals=self.words, nt=self.nt, extra=self.extra, sample=self.sample)
+        r = dict(problems=self.probs, evals=self.words, nt=self.nt, extra=self.extra, sample=self.sample)
+        if self.stale:
+            r['stale'] = self.stale
+        return r
 
 
 # ---------------------------------------------------------------------------------------------- RVint
@@ -139,7 +174,7 @@ def check_rv(cx, u, box, dt, pos, vel, where):
             e64 = ptab[u >> np.uint32(12)]
             if not np.array_equal(pos, e64.astype(t)):
                 d = np.abs(pos.astype(np.float64) - e64)
-                bad = ~(d <= np.finfo(t).eps * np.abs(e64))
+                bad = ~(d <= POS_ULPS * np.finfo(t).eps * np.abs(e64))
                 for c in range(3):
                     if bad[:, c].any():
                         i = int(np.argmax(bad[:, c]))
@@ -173,7 +208,7 @@ def roundtrip(cx, u, box, dt, pos, vel, where):
             if not np.array_equal(R.encode_pos(x, box), s):
                 raise RuntimeError('harness: position encoder does not invert the cell centre')
             err = np.abs(pos.astype(np.float64) - x)
-            bad = ~(err <= 0.5 * q + eps * np.abs(x))
+            bad = ~(err <= 0.5 * q + POS_ULPS * eps * np.abs(x))
             if bad.any():
                 i, c = (int(k) for k in np.argwhere(bad)[0])
                 cx.bad(f'rvint:roundtrip:pos:col{c}:{dt}',
@@ -235,7 +270,7 @@ def rv_modes(cx, bp, u, box, dt, where, modes):
                     if not (isinstance(got, np.ndarray) and same(got, base)):
                         cx.bad(f'rvint:select:{tag}:{name}:{dt}', f'{where}: {name} returned with {tag} differs from the one returned when both are requested')
                 elif m is False:
-                    if not (isinstance(got, (int, np.integer)) and 0 <= got <= n):
+                    if not (got is None or (isinstance(got, (int, np.integer)) and 0 <= got <= n)):
                         cx.bad(f'rvint:select:{tag}:ret', f'{where}: return value for {name}out=False is {got!r}')
                 else:
                     if not (isinstance(got, (int, np.integer)) and got == n):
@@ -382,16 +417,19 @@ def run_rvmisc(case, cx, bp):
             cx.bad(f'rvint:prealloc:guard:{dt}', 'rows between the supplied strided output rows were written')
         other = 'f8' if dt == 'f4' else 'f4'
         po, vo = poisoned((n, 3), DT(other)), poisoned((n, 3), DT(other))
-        r = bp.unpack_rvint(w, 2000.0, float_dtype=t, posout=po, velout=vo)
-        cx.calls += 1
-        check_rv(cx, u, 2000.0, other, po, vo, f'misc supplied {other} outputs with float_dtype={dt}')
+        try:
+            r = bp.unpack_rvint(w, 2000.0, float_dtype=t, posout=po, velout=vo)
+        except (ValueError, TypeError):
+            cx.add('foreign_dtype_output_refused', 1)      # unspecified combination: a refusal is acceptable
+        else:
+            cx.calls += 1
+            check_rv(cx, u, 2000.0, other, po, vo, f'misc supplied {other} outputs with float_dtype={dt}')
         # private kernel, as called from the catalog loader
         for pm, vm in ((True, True), (True, False), (False, True)):
             po = poisoned((n, 3), t) if pm else None
             vo = poisoned((n, 3), t) if vm else None
-            bp._unpack_rvint(w, 2000.0, po, vo)
-            cx.calls += 1
-            check_rv(cx, u, 2000.0, dt, po, vo, f'misc _unpack_rvint(pos={pm}, vel={vm}) {dt}')
+            if cx.private(bp, '_unpack_rvint', intdata=w, boxsize=2000.0, posout=po, velout=vo):
+                check_rv(cx, u, 2000.0, dt, po, vo, f'misc _unpack_rvint(pos={pm}, vel={vm}) {dt}')
         cx.nt.append(f'rvmisc:prealloc:{dt}')
     # default float_dtype is float32
     p, v = bp.unpack_rvint(w, 2000.0)
@@ -422,9 +460,11 @@ def check_pid(cx, P, box, ppd, dt, out, where, want=PID_OUT, meta=None):
             continue
         g = out[k]
         shp, edt = shapes[k]
-        if g.shape != shp or (edt is not None and g.dtype != edt):
-            cx.bad(f'pid:{k}:dtype-shape', f'{where}: {k} has dtype {g.dtype} shape {g.shape}, expected {np.dtype(edt) if edt else "uint8/bool"} {shp}')
+        if g.shape != shp or (g.dtype != edt if edt is not None else g.dtype.kind not in 'biu'):
+            cx.bad(f'pid:{k}:dtype-shape', f'{where}: {k} has dtype {g.dtype} shape {g.shape}, expected {np.dtype(edt) if edt else "a bool/integer dtype"} {shp}')
             continue
+        if g.dtype == np.bool_:
+            g = g.view(np.uint8)          # raw bytes: 0/1 exactly (an unwritten poison byte is not a 1)
         if k == 'lagr_pos':
             e64 = ref[k]
             if not np.array_equal(g, e64.astype(t)):
@@ -460,7 +500,9 @@ def check_pid_invariance(cx, out, box, ppd, dt, meta, where):
             gi = (out['pid'][m] >> sh) & 0x7FFF
             bad = ~(got == exp) | badp | ~(gi == v)
         elif name == 'tagged':
-            bad = ~(out['tagged'][m].astype(np.int64) == v)
+            tg = out['tagged']
+            tg = tg.view(np.uint8) if tg.dtype == np.bool_ else tg
+            bad = ~(tg[m].astype(np.int64) == v)
         else:
             bad = ~(out['density'][m].astype(np.float64) == (v * v))
         if bad.any():
@@ -525,13 +567,13 @@ def run_pidpre(case, cx, bp):
     P, F, B, V = sweep()
     n = len(P)
     box, ppd = 32.0, 64
-    specs = [True, False, 'density', 'lagr_pos', ['pid', 'packedpid'], ['lagr_idx', 'tagged'], list(bp.PID_FIELDS),
+    allf = list(getattr(bp, 'PID_FIELDS', PID_OUT + ('packedpid',)))       # order / container type of the constant is not part of the property
+    specs = [True, False, 'density', 'lagr_pos', ['pid', 'packedpid'], ['lagr_idx', 'tagged'], allf,
              ['lagr_pos', 'density', 'tagged'], ['packedpid']]
     exp_keys = {True: set(PID_OUT) | {'packedpid'}, False: {'pid'}}
-    shapes = dict(pid=((n,), np.int64), lagr_idx=((n, 3), np.int16), lagr_pos=((n, 3), t), tagged=((n,), np.uint8),
+    shapes = dict(pid=((n,), np.int64), lagr_idx=((n, 3), np.int16), lagr_pos=((n, 3), t), tagged=((n,), None),
                   density=((n,), t), packedpid=((n,), np.uint64))
-    if list(bp.PID_FIELDS) != ['pid', 'lagr_pos', 'tagged', 'density', 'lagr_idx', 'packedpid']:
-        cx.bad('pid:PID_FIELDS', f'PID_FIELDS = {bp.PID_FIELDS}')
+    cx.add('PID_FIELDS_is_documented_set', int(set(allf) == set(PID_OUT) | {'packedpid'}))
     for spec in specs:
         arr = bp.empty_bitpacked_arrays(n, spec, float_dtype=t)
         cx.calls += 1
@@ -542,7 +584,7 @@ def run_pidpre(case, cx, bp):
             continue
         okshape = True
         for k, a in arr.items():
-            if a.shape != shapes[k][0] or a.dtype != shapes[k][1]:
+            if a.shape != shapes[k][0] or (a.dtype != shapes[k][1] if shapes[k][1] is not None else a.dtype.kind not in 'biu'):
                 cx.bad(f'pid:prealloc:{k}:dtype-shape', f'{where}: {k} has dtype {a.dtype} shape {a.shape}')
                 okshape = False
             # poison
@@ -550,19 +592,17 @@ def run_pidpre(case, cx, bp):
         if not okshape:
             continue
         kw = {k: v for k, v in arr.items() if k != 'packedpid'}
-        bp._unpack_pids(P, box, ppd, float_dtype=t, **kw)
-        cx.calls += 1
-        check_pid(cx, P, box, ppd, dt, kw, f'_unpack_pids into {where}', want=[k for k in PID_OUT if k in kw], meta=(F, B, V))
-        if 'packedpid' in arr and not (arr['packedpid'].view(np.uint8) == 0xA5).all():
-            cx.bad('pid:prealloc:packedpid-touched', f'{where}: _unpack_pids is not given packedpid but it changed')
+        if cx.private(bp, '_unpack_pids', packed=P, box=box, ppd=ppd, float_dtype=t, **kw):
+            check_pid(cx, P, box, ppd, dt, kw, f'_unpack_pids into {where}', want=[k for k in PID_OUT if k in kw], meta=(F, B, V))
+            if 'packedpid' in arr and not (arr['packedpid'].view(np.uint8) == 0xA5).all():
+                cx.bad('pid:prealloc:packedpid-touched', f'{where}: _unpack_pids is not given packedpid but it changed')
         cx.nt.append(f'pidpre:{spec!r}:{dt}')
     # defaults of the kernel (float_dtype omitted -> float32)
     if dt == 'f4':
         lp = poisoned((n, 3), np.float32)
         de = poisoned((n,), np.float32)
-        bp._unpack_pids(P, box, ppd, lagr_pos=lp, density=de)
-        cx.calls += 1
-        check_pid(cx, P, box, ppd, 'f4', dict(lagr_pos=lp, density=de), '_unpack_pids default float_dtype', want=['lagr_pos', 'density'], meta=(F, B, V))
+        if cx.private(bp, '_unpack_pids', packed=P, box=box, ppd=ppd, lagr_pos=lp, density=de):
+            check_pid(cx, P, box, ppd, 'f4', dict(lagr_pos=lp, density=de), '_unpack_pids default float_dtype', want=['lagr_pos', 'density'], meta=(F, B, V))
 
 
 def run_pidmisc(case, cx, bp):
@@ -627,12 +667,12 @@ def run_catkern(case, cx, bp):
         for box in (2000.0, 1185.0):
             pos, vel = poisoned((ntot, 3), t), poisoned((ntot, 3), t)
             rv = np.zeros((ntot, 3), dtype=np.int32)
-            C._unpack_rv_subsamples(pos, vel, rv, w, ro, rl, wo, box)
-            cx.calls += 1
-            check_rv(cx, u[src], box, dt, pos, vel, f'_unpack_rv_subsamples Box={box} {dt}')
-            if not np.array_equal(rv, w[src]):
-                cx.bad('catkern:rvint-copy', '_unpack_rv_subsamples: copied rvint differs from the source rows')
-            cx.nt.append(f'catkern:rv:box{box}:{dt}')
+            if cx.private(C, '_unpack_rv_subsamples', pos=pos, vel=vel, rvint=rv, slab_rvint=w, slab_read_offsets=ro,
+                          slab_read_lens=rl, slab_write_offsets=wo, boxsize=box):
+                check_rv(cx, u[src], box, dt, pos, vel, f'_unpack_rv_subsamples Box={box} {dt}')
+                if not np.array_equal(rv, w[src]):
+                    cx.bad('catkern:rvint-copy', '_unpack_rv_subsamples: copied rvint differs from the source rows')
+                cx.nt.append(f'catkern:rv:box{box}:{dt}')
     # zipper with a cleaned stream: halo i = original rows then cleaned rows
     cro = np.array([5, 50, 500, 5000], dtype=np.int64)
     crl = np.array([7, 0, 300, 1000], dtype=np.int64)
@@ -641,10 +681,10 @@ def run_catkern(case, cx, bp):
     w2 = u2.view(np.int32)
     src_u = np.concatenate([np.concatenate([u[a:a + l], u2[b:b + m]]) for a, l, b, m in zip(ro, rl, cro, crl)])
     pos, vel = poisoned((int(wo2[-1]), 3), np.float32), poisoned((int(wo2[-1]), 3), np.float32)
-    C._unpack_rv_subsamples(pos, vel, None, w, ro, rl, wo2, 2000.0, w2, cro, crl)
-    cx.calls += 1
-    check_rv(cx, src_u, 2000.0, 'f4', pos, vel, '_unpack_rv_subsamples with cleaned stream')
-    cx.nt.append('catkern:rv:cleaned')
+    if cx.private(C, '_unpack_rv_subsamples', pos=pos, vel=vel, rvint=None, slab_rvint=w, slab_read_offsets=ro, slab_read_lens=rl,
+                  slab_write_offsets=wo2, boxsize=2000.0, clean_slab_rvint=w2, clean_slab_read_offsets=cro, clean_slab_read_lens=crl):
+        check_rv(cx, src_u, 2000.0, 'f4', pos, vel, '_unpack_rv_subsamples with cleaned stream')
+        cx.nt.append('catkern:rv:cleaned')
     # PID
     P, F, B, V = sweep()
     npid = len(P)
@@ -656,19 +696,21 @@ def run_catkern(case, cx, bp):
             arr = bp.empty_bitpacked_arrays(npid, True)
             for a in arr.values():
                 a.view(np.uint8).fill(0xA5)
-            C._unpack_pid_subsamples(arr['pid'], P, ro, rl, wo, box, ppd, lagr_pos=arr['lagr_pos'], tagged=arr['tagged'],
-                                     density=arr['density'], lagr_idx=arr['lagr_idx'], packedpid=arr['packedpid'])
-            cx.calls += 1
-            pk = arr.pop('packedpid')
-            check_pid(cx, P, box, ppd, dt, arr, f'_unpack_pid_subsamples Box={box} ppd={ppd}', meta=(F, B, V))
-            if not np.array_equal(pk, P):
-                cx.bad('catkern:packedpid-copy', '_unpack_pid_subsamples: packedpid output differs from the source words')
-            cx.nt.append(f'catkern:pid:box{box}:ppd{ppd}')
+            if cx.private(C, '_unpack_pid_subsamples', pid=arr['pid'], slab_packedpid=P, slab_read_offsets=ro, slab_read_lens=rl,
+                          slab_write_offsets=wo, boxsize=box, ppd=ppd, lagr_pos=arr['lagr_pos'], tagged=arr['tagged'],
+                          density=arr['density'], lagr_idx=arr['lagr_idx'], packedpid=arr['packedpid']):
+                pk = arr.pop('packedpid')
+                check_pid(cx, P, box, ppd, dt, arr, f'_unpack_pid_subsamples Box={box} ppd={ppd}', meta=(F, B, V))
+                if not np.array_equal(pk, P):
+                    cx.bad('catkern:packedpid-copy', '_unpack_pid_subsamples: packedpid output differs from the source words')
+                cx.nt.append(f'catkern:pid:box{box}:ppd{ppd}')
     # pid only (unpack_bits=False)
     pid = np.full(npid, -1, dtype=np.int64)
-    C._unpack_pid_subsamples(pid, P, ro, rl, wo, 2000.0, 6912)
-    cx.calls += 1
-    check_pid(cx, P, 2000.0, 6912, 'f4', dict(pid=pid), '_unpack_pid_subsamples pid only', want=['pid'], meta=(F, B, V))
+    if cx.private(C, '_unpack_pid_subsamples', pid=pid, slab_packedpid=P, slab_read_offsets=ro, slab_read_lens=rl,
+                  slab_write_offsets=wo, boxsize=2000.0, ppd=6912):
+        check_pid(cx, P, 2000.0, 6912, 'f4', dict(pid=pid), '_unpack_pid_subsamples pid only', want=['pid'], meta=(F, B, V))
+    if cx.private_ok == 0:
+        raise core.Stale(cx.stale or 'no private catalog kernel could be reached')
 
 
 RUN = dict(rvpos=run_rvpos, rvvel=run_rvvel, rvfull=run_rvfull, rvmisc=run_rvmisc, pid=run_pid, pidsub=run_pidsub,
